@@ -33,8 +33,18 @@ func VerifResetPushback() { verifMaxTokPushback, verifMaxRunePushback = 0, 0 }
 // at the start of any scan or read since the last reset.
 func VerifMaxPushback() (tokens, runes int) { return verifMaxTokPushback, verifMaxRunePushback }
 
-// VerifPending reports how many runes are currently pushed back in s.
-func (s *Scanner) VerifPending() int { return s.r.n }
+// VerifPending reports how many runes are currently pushed back in s, not
+// counting pushed-back end-of-input markers.
+func (s *Scanner) VerifPending() int {
+	c := 0
+	for k := 1; k <= s.r.n && k <= len(s.r.buf); k++ {
+		idx := ((s.r.i-k+1)%len(s.r.buf) + len(s.r.buf)) % len(s.r.buf)
+		if s.r.buf[idx].ch != eof {
+			c++
+		}
+	}
+	return c
+}
 
 // VerifIsOperator exposes Token.isOperator.
 func VerifIsOperator(t Token) bool { return t.isOperator() }
